@@ -1287,9 +1287,45 @@ def exec_deepcopy(sess: Session, op: dict, step: int) -> Effect:
             eff.v('C11', 'copy_comment_flags', step, f'deep copy is not exact: comment ownership flags {fb} in the copy, {fa} in the original')
     except Exception:
         pass
+    _check_copy_under_shared_memo(eff, step, node, text)
     sess.pool.append(cp)
     sess.stats['pool:copies'] += 1
     return eff
+
+
+def _check_copy_under_shared_memo(eff: Effect, step: int, node: Any, text: str) -> None:
+    """C11 when the model is copied as part of a container that also holds one of its own sub-models
+    (one memo for both, as in copy.deepcopy([txn, txn.postings[0]])): each element is still an equal,
+    exact and independent copy.  Draws nothing from the PRNG and adds nothing to the pool."""
+    if not isinstance(node, models.RawTreeModel):
+        return
+    sub = None
+    try:
+        for path, n in W.iter_nodes(node):
+            if path and isinstance(n, models.RawTreeModel) and n.token_store is not None:
+                sub = n
+                break
+    except Exception:
+        return
+    if sub is None:
+        return
+    try:
+        sub_text = print_model(sub)
+        cps = copy.deepcopy([node, sub])
+    except Exception as e:
+        eff.v('C11', 'copy_raises', step,
+              f'deepcopy of [{type(node).__name__}, its {type(sub).__name__}] raised {type(e).__name__}: {e}')
+        return
+    for orig, otext, c in ((node, text, cps[0]), (sub, sub_text, cps[1])):
+        if not (c == orig) or print_model(c) != otext:
+            eff.v('C11', 'copy_text', step,
+                  f'{type(orig).__name__} copied inside a container together with an overlapping model is not an equal, exact copy')
+            return
+        if ids_of(c) & ids_of(node):
+            eff.v('C11', 'copy_shares_tokens', step, 'a copy made inside a container shares tokens with the original')
+            return
+    if ids_of(cps[0]) & ids_of(cps[1]) and cps[0].token_store is not cps[1].token_store:
+        eff.v('C11', 'copy_shares_tokens', step, 'two copies made under one memo share tokens across different stores')
 
 
 def exec_construct(sess: Session, op: dict, step: int) -> Effect:
